@@ -186,7 +186,7 @@ func (c *Ctx) outputRules(r *Report) {
 	if sh := c.mustFn(r, "(*Parser).showBuiltinHelp"); sh != nil {
 		for _, in := range c.instrs(sh, c.isCallTo("(*Parser).WriteHelp")) {
 			a := c.term(in.(ssa.CallInstruction).Common().Args[1])
-			r.Check(a == "new:bytes.Buffer", "OUT-buffer", c.fname(sh), "WriteHelp target", c.ipos(in), "a local bytes.Buffer", "built-in help is written to "+a)
+			r.Check(a == "new:bytes.Buffer" || a == "new:strings.Builder", "OUT-buffer", c.fname(sh), "WriteHelp target", c.ipos(in), "a local bytes.Buffer / strings.Builder", "built-in help is written to "+a)
 		}
 	}
 }
